@@ -1087,6 +1087,20 @@ _dq_state_is_runnable(uint64_t dq_state)
 	return dq_state < DISPATCH_QUEUE_WIDTH_FULL_BIT;
 }
 
+/* Sync "readers" may exceed the width of the queue, but only as long as the
+ * `dq_width - 1` intervals that a pending barrier reserves on top of them
+ * (and the interval a drainer may be adding for a sync waiter) still fit in
+ * the width field, else the reservation carries into IN_BARRIER.
+ */
+DISPATCH_ALWAYS_INLINE
+static inline bool
+_dq_state_has_sync_width_room(uint64_t dq_state, uint16_t dq_width)
+{
+	return _dq_state_is_sync_runnable(dq_state) &&
+			dq_state + (dq_width + 1ull) * DISPATCH_QUEUE_WIDTH_INTERVAL <
+			DISPATCH_QUEUE_IN_BARRIER;
+}
+
 DISPATCH_ALWAYS_INLINE
 static inline bool
 _dq_state_should_override(uint64_t dq_state)
@@ -1380,7 +1394,8 @@ _dispatch_queue_try_reserve_sync_width(dispatch_lane_t dq)
 	return os_atomic_rmw_loop2o(dq, dq_state, old_state, new_state, relaxed, {
 		if (unlikely(!_dq_state_is_sync_runnable(old_state)) ||
 				_dq_state_is_dirty(old_state) ||
-				_dq_state_has_pending_barrier(old_state)) {
+				_dq_state_has_pending_barrier(old_state) ||
+				!_dq_state_has_sync_width_room(old_state, dq->dq_width)) {
 			os_atomic_rmw_loop_give_up(return false);
 		}
 		new_state = old_state + DISPATCH_QUEUE_WIDTH_INTERVAL;
